@@ -470,6 +470,9 @@ class Engine:
         if addr[0] == "B":
             return Blob(addr[1])
         if addr[0] == "S":
+            if len(addr) == 3 and addr[2][0] == "f" and isinstance(addr[2][1], int) and self.statics.get(addr[1], {}).get("count") is not None:
+                # constant index into a typed static table
+                addr = (addr[0], addr[1], ("i", Int(z3.BitVecVal(addr[2][1], 64), "usize")))
             if len(addr) == 3 and addr[2][0] == "i":
                 from . import stubs as _S
                 iv = addr[2][1]
@@ -479,6 +482,8 @@ class Engine:
                     st.events.append(("table_get", addr[1], ie))
                     return F64(z3.fpBVToFP(z3.Select(arr, ie), z3.Float64()))
                 return Int(_S.table_u8_select(self, addr[1], ie), "u8")
+            if len(addr) > 2 and self.statics.get(addr[1], {}).get("count") is not None:
+                raise Unsupported("load from the static table %s at %r" % (addr[1], addr[2:]))
             return self.static_value(addr[1])
         if addr[0] == "V":
             v = addr[1]
@@ -676,6 +681,8 @@ class Engine:
     def binop(self, name, a, b):
         if isinstance(a, F64) or isinstance(b, F64):
             rm = z3.RNE()
+            if not (isinstance(a, F64) and isinstance(b, F64)):
+                raise Unsupported("float %s of %r and %r" % (name, a, b))
             x, y = a.e, b.e
             if getattr(self, "fp_abstract", False) and name in ("Mul", "Div", "Add", "Sub"):
                 return F64(FP_UF[name](x, y))
@@ -871,6 +878,9 @@ class Engine:
                     lty = frame.fn.local_ty.get(op[1][1], "") if op and op[0] in ("move", "copy") and op[1][0] == "local" else ""
                     if "[u8]" in lty or "str" in lty:
                         return Int(z3.BitVecVal(self.statics[w.addr[1]]["size"], 64), "usize")
+                if isinstance(w, Ref) and len(w.addr) == 2 and w.addr[0] == "S" and self.statics.get(w.addr[1], {}).get("count") is not None:
+                    # a typed static table (`static NAME: [ty; n]`) unsized to a slice: `NAME.len()` is n
+                    return Int(z3.BitVecVal(int(self.statics[w.addr[1]]["count"]), 64), "usize")
                 raise Unsupported("PtrMetadata of %r in %s (%r)" % (w, frame.fn.name[-60:], rv))
             raise Unsupported("unop " + rv[1])
         if k == "cast":
